@@ -490,6 +490,8 @@ def r18_12(ctx):
                     and isinstance(a.value, ast.Call):
                 callee = None
                 nm = call_name(a.value) or ''
+                if nm in ('tuple', 'list', 'sorted', 'set', 'frozenset', 'range', 'np.atleast_1d', 'np.asarray', 'np.array'):
+                    continue        # a container conversion does not change the axis numbers
                 for q in (nm, T + '.' + nm, T + '.' + cname + '.' + nm.split('.')[-1]):
                     callee = callee or ctx.prog.maybe_func(q)
                 if callee is None:
